@@ -204,7 +204,9 @@ func c06EmitDNS(w *bufio.Writer, rs []*rules.NetworkRule, via string, got *rules
 }
 
 func c06Multiset(r *rng, pool []string, maxN int) (ts []string) {
-	k := r.n(maxN + 1)
+	// how many rules: 0..maxN mostly; 1 multiset in 12 is LARGE (log-scale up to 40x maxN, i.e. hundreds of
+	// candidates on the request side and about a hundred on the referrer side), the deciding rule anywhere in it
+	k := nCount(r, r.n(maxN+1), 12, maxN+1, 40*maxN)
 	for i := 0; i < k; i++ {
 		if len(ts) > 0 && r.chance(1, 4) {
 			// the badfilter twin of an earlier rule
